@@ -49,8 +49,22 @@ def status():
         else:
             rows.append("| %s | %s | - | - | - | - | - |" % (pid, "yes" if pid in claimed else "no"))
     return "\n".join(rows)
+def asbuilt():
+    """per property: what the check proves / ties / leaves open, taken verbatim from the claim in props/Cxx.json
+    (the same text MANIFEST.json carries), plus the Lean modules, translators and the report file"""
+    out = []
+    for i in range(1, 21):
+        pid = "C%02d" % i
+        cfg = json.load(open(os.path.join(ROOT, "props", pid + ".json")))
+        c = cfg.get("claim", {})
+        rep = " (details: reports/%s.md)" % pid if os.path.exists(os.path.join(ROOT, "reports", pid + ".md")) else ""
+        mods = ", ".join(m.replace("FontVerif.", "") for m in cfg.get("props", []))
+        trs = ", ".join(cfg.get("translators", [])) or "-"
+        out.append("**%s**%s. Theorem modules: %s. Translators: %s.\n\n%s\n\n*Trusted / assumed:* %s\n\n*Modelled rather than verified:* %s\n" % (
+            pid, rep, mods, trs, c.get("text", "(not claimed)"), c.get("note", ""), cfg.get("not_modelled", "")))
+    return "\n".join(out)
 p = os.path.join(ROOT, "DESIGN.md"); s = open(p).read()
-for name, fn in (("seeded", seeded), ("fixes", fixes), ("findings", findings), ("status", status)):
+for name, fn in (("seeded", seeded), ("fixes", fixes), ("findings", findings), ("status", status), ("asbuilt", asbuilt)):
     b, e = f"<!-- BEGIN:{name} -->", f"<!-- END:{name} -->"
     if b in s and e in s:
         s = s[:s.index(b) + len(b)] + "\n" + fn() + "\n" + s[s.index(e):]
